@@ -10,6 +10,7 @@ PID = "C07"
 ALLOWED_AXIOMS = ["Classical_Prop.classic", "ClassicalDedekindReals.sig_forall_dec",
                   "ClassicalDedekindReals.sig_not_dec", "FunctionalExtensionality.functional_extensionality_dep"]
 PROFILES = ["debug"]
+SHARD_TIMEOUT = 150         # seconds; a hanging implementation becomes TIMEOUT lines, not a stalled check
 CASES_PER_SHARD = 40      # sessions are expensive on the model: use all cores
 CORRESPONDENCE = ("Vm::eval error path (run.rs run_count error arm, mod.rs prepare_eval), Vm::last_stacktrace and the "
                   "sp/bp/stack-capacity hooks (wire 74) vs Model/Vm.v run_loop / eval, Model/WireVm.v state_text_all")
